@@ -16,8 +16,11 @@ from allmydata.immutable import happiness_upload as HP
 
 B = hlib.bounds()
 NOTES = [
-    "peer ids are small distinct ints (100+label) so that set iteration order is deterministic across processes "
-    "(real server ids are bytes; the code under test never looks inside an id)",
+    "peer ids are distinct ints 100+8p: deterministic across processes, and colliding in small hash tables so that set "
+    "iteration order follows insertion order (real server ids are bytes; the code under test never looks inside an id)",
+    "relation-shaped obligations: after the solver-decided forks have fixed every input bit, the real function is run on the "
+    "realised plain-Python input with CrossHair's opcode tracing off (_matching.run_concrete refuses non-builtin values); "
+    "traced and untraced execution coincide on concrete data",
     "maximum-matching oracle: z3 query per path in a private context, run with CrossHair tracing off on the realised relation",
 ]
 hlib.encoded(HU.servers_of_happiness, HU.shares_by_server, HU._flow_network_for, HU._reindex, HU.merge_servers,
@@ -28,84 +31,127 @@ hlib.encoded(HU.servers_of_happiness, HU.shares_by_server, HU._flow_network_for,
 P = int(B.get("P", 3))
 S = int(B.get("S", 3))
 FIX = B.get("fix") or []
-PPERMS = M.perms(P)
 SPERMS = M.perms(S)
-NB = 16
+PPERMS = M.perms(P)
+SORDERS = B.get("sorders")          # None = every share insertion order; else a list of indices into SPERMS
+# peer ids: 100, 108, 116, ... collide in CPython's small-set hash table, so the iteration order of a set of
+# them depends on the order of insertion (checked at import); `srev` reverses it for the odd shares.
+LABEL = [100 + 8 * p for p in range(4)] + [100 + 8 * 4]
+if list(set([LABEL[0], LABEL[1]])) == list(set([LABEL[1], LABEL[0]])):
+    NOTES.append("set iteration order did not vary with insertion order on this interpreter")
 
 
-def _pre(bits, porder, sorder):
-    return (M.bits_zero_beyond(bits, P * S) and M.bits_fixed(bits, FIX)
-            and 0 <= porder < len(PPERMS) and 0 <= sorder < len(SPERMS))
+def _sorder_ok(sorder):
+    if SORDERS is None:
+        return 0 <= sorder < len(SPERMS)
+    ok = False
+    for i in SORDERS:
+        if sorder == i % len(SPERMS):
+            ok = True
+    return ok
 
 
-def _edges(rel, label):
-    return [(label[p], s) for p in range(P) for s in rel[p]]
+SREV_ONLY = B.get("srev_only")     # None = reversed holder sets under every insertion order, else only under these
 
 
-def _sharemap(rel, label, sperm):
-    """share -> set(peer) dict; keys inserted in the order sperm; peer p carries the id label[p]."""
+def _srev_ok(sorder, srev):
+    if SREV_ONLY is None or not srev:
+        return True
+    ok = False
+    for i in SREV_ONLY:
+        if sorder == i:
+            ok = True
+    return ok
+
+
+def _pre(bits, sorder, srev):
+    return M.bits_zero_beyond(bits, P * S) and M.bits_fixed(bits, FIX) and _sorder_ok(sorder) and _srev_ok(sorder, srev)
+
+
+def _edges(rel):
+    return [(LABEL[p], s) for p in range(P) for s in rel[p]]
+
+
+def _sharemap(rel, sperm, srev):
+    """share -> set(peer id) dict; keys inserted in the order sperm; holder sets filled in ascending peer
+    order, or descending for odd shares when srev."""
     sm = {}
     for s in sperm:
+        order = list(range(P))
+        if srev and s % 2 == 1:
+            order.reverse()
         holders = set()
-        for p in range(P):
+        for p in order:
             if s in rel[p]:
-                holders.add(label[p])
+                holders.add(LABEL[p])
         if holders:
             sm[s] = holders
     return sm
 
 
-def h_soh(b0: bool, b1: bool, b2: bool, b3: bool, b4: bool, b5: bool, b6: bool, b7: bool,
-          b8: bool, b9: bool, b10: bool, b11: bool, b12: bool, b13: bool, b14: bool, b15: bool,
-          porder: int, sorder: int, gap: bool) -> bool:
-    """
-    pre: _pre([b0, b1, b2, b3, b4, b5, b6, b7, b8, b9, b10, b11, b12, b13, b14, b15], porder, sorder)
-    post: _ == True
-    """
-    bits = [b0, b1, b2, b3, b4, b5, b6, b7, b8, b9, b10, b11, b12, b13, b14, b15]
-    rel = M.rel_from_bits(bits, P, S)
-    pperm = M.pick(PPERMS, porder)
-    sperm = M.pick(SPERMS, sorder)
-    label = [100 + pperm[p] for p in range(P)]
+def _copy(sm):
+    return dict((k, set(v)) for k, v in sm.items())
+
+
+def _soh_check(rel, sperm, rev, gap):
+    """untraced, on realised input: build the sharemap, run the real function, compare with the z3 optimum."""
+    rel = [set(r) for r in rel]
+    sperm = list(sperm)
     if gap:
-        # share numbers with holes (0, 2, 4, ...): the flow network must re-index them
-        rel = [set(2 * s for s in row) for row in rel]
-        sperm = [2 * s for s in sperm]
-    want = M.max_matching_z3(_edges(rel, label))
-    sm = _sharemap(rel, label, sperm)
-    before = dict((k, set(v)) for k, v in sm.items())
+        # share numbers with holes (1, 4, 7, ...): the flow network must re-index them
+        rel = [set(3 * s + 1 for s in row) for row in rel]
+        sperm = [3 * s + 1 for s in sperm]
+    want = M.max_matching_z3(_edges(rel))
+    sm = _sharemap(rel, sperm, rev)
+    before = _copy(sm)
     got = HU.servers_of_happiness(sm)
     if got != want:
         return "servers_of_happiness=%r but the maximum matching has size %r" % (got, want)
     if sm != before:
         return "servers_of_happiness mutated its argument"
-    # same relation in canonical order/labels: must agree (order independence, stated directly)
-    ident = [100 + p for p in range(P)]
-    sm0 = _sharemap(rel, ident, sorted(set(s for row in rel for s in row)))
-    got0 = HU.servers_of_happiness(sm0)
-    if got0 != got:
-        return "result depends on insertion order / labelling: %r vs %r" % (got0, got)
     return True
 
 
-def h_merge_soh(b0: bool, b1: bool, b2: bool, b3: bool, b4: bool, b5: bool, b6: bool, b7: bool,
-                b8: bool, b9: bool, b10: bool, b11: bool, b12: bool, b13: bool, b14: bool, b15: bool,
-                t0: bool, t1: bool, t2: bool, t3: bool, t4: bool, t5: bool, t6: bool, t7: bool, t8: bool) -> bool:
+def h_soh(b0: bool, b1: bool, b2: bool, b3: bool, b4: bool, b5: bool, b6: bool, b7: bool,
+          b8: bool, b9: bool, b10: bool, b11: bool, b12: bool, b13: bool, b14: bool, b15: bool,
+          sorder: int, srev: bool, gap: bool) -> bool:
     """
-    pre: M.bits_zero_beyond([b0, b1, b2, b3, b4, b5, b6, b7, b8, b9, b10, b11, b12, b13, b14, b15], P * S)
-    pre: M.bits_fixed([b0, b1, b2, b3, b4, b5, b6, b7, b8, b9, b10, b11, b12, b13, b14, b15], FIX)
-    pre: M.bits_zero_beyond([t0, t1, t2, t3, t4, t5, t6, t7, t8], B.get("TP", 2) * S)
+    pre: _pre([b0, b1, b2, b3, b4, b5, b6, b7, b8, b9, b10, b11, b12, b13, b14, b15], sorder, srev or gap)
+    pre: (not gap) or (not srev)
     post: _ == True
     """
-    # pre-existing shares (relation bits b) merged with upload trackers (bits t: tracker q has a bucket for share s)
-    rel = M.rel_from_bits([b0, b1, b2, b3, b4, b5, b6, b7, b8, b9, b10, b11, b12, b13, b14, b15], P, S)
-    TP = int(B.get("TP", 2))
-    trel = M.rel_from_bits([t0, t1, t2, t3, t4, t5, t6, t7, t8], TP, S)
-    label = [100 + p for p in range(P)]
-    # tracker q is the server with id 100 + (P - 1 - q) ... overlapping with existing holders, plus one fresh id
-    tid = [100 + (P - 1 + q) for q in range(TP)]
-    pre = _sharemap(rel, label, list(range(S)))
-    before = dict((k, set(v)) for k, v in pre.items())
+    bits = [b0, b1, b2, b3, b4, b5, b6, b7, b8, b9, b10, b11, b12, b13, b14, b15]
+    rel = M.rel_from_bits(bits, P, S)
+    sperm = M.pick(SPERMS, sorder)
+    rev = True if srev else False
+    g = True if gap else False
+    return M.run_concrete(_soh_check, rel, sperm, rev, g)
+
+
+class _Tracker(object):
+    def __init__(self, sid, shares):
+        self.sid = sid
+        self.buckets = dict((s, None) for s in sorted(shares))
+
+    def get_serverid(self):
+        return self.sid
+
+    def __hash__(self):            # deterministic set order across processes (default hash is the address)
+        return self.sid
+
+    def __eq__(self, other):
+        return isinstance(other, _Tracker) and other.sid == self.sid
+
+
+def _merge_check(rel, trel):
+    rel = [set(r) for r in rel]
+    trel = [set(r) for r in trel]
+    TP = len(trel)
+    # tracker 0 is the last server of the pre-existing relation (a server can both hold old shares and accept
+    # new ones), tracker 1.. are servers without pre-existing shares
+    tid = [LABEL[P - 1 + q] for q in range(TP)]
+    pre = _sharemap(rel, list(range(S)), False)
+    before = _copy(pre)
     trackers = set()
     for q in range(TP):
         if trel[q]:
@@ -113,7 +159,7 @@ def h_merge_soh(b0: bool, b1: bool, b2: bool, b3: bool, b4: bool, b5: bool, b6: 
     merged = HU.merge_servers(pre, trackers)
     if pre != before:
         return "merge_servers mutated the map of pre-existing shares"
-    edges = set(_edges(rel, label))
+    edges = set(_edges(rel))
     for q in range(TP):
         for s in trel[q]:
             edges.add((tid[q], s))
@@ -129,43 +175,36 @@ def h_merge_soh(b0: bool, b1: bool, b2: bool, b3: bool, b4: bool, b5: bool, b6: 
     return True
 
 
-class _Tracker(object):
-    def __init__(self, sid, shares):
-        self.sid = sid
-        self.buckets = dict((s, None) for s in sorted(shares))
-
-    def get_serverid(self):
-        return self.sid
-
-
-def h_calc_mappings(b0: bool, b1: bool, b2: bool, b3: bool, b4: bool, b5: bool, b6: bool, b7: bool,
-                    b8: bool, b9: bool, b10: bool, b11: bool, b12: bool, b13: bool, b14: bool, b15: bool,
-                    porder: int, sorder: int, np_extra: int, ns_extra: int) -> bool:
+def h_merge_soh(b0: bool, b1: bool, b2: bool, b3: bool, b4: bool, b5: bool, b6: bool, b7: bool,
+                b8: bool, b9: bool, b10: bool, b11: bool, b12: bool, b13: bool, b14: bool, b15: bool,
+                t0: bool, t1: bool, t2: bool, t3: bool, t4: bool, t5: bool, t6: bool, t7: bool, t8: bool) -> bool:
     """
-    pre: _pre([b0, b1, b2, b3, b4, b5, b6, b7, b8, b9, b10, b11, b12, b13, b14, b15], porder, sorder)
-    pre: 0 <= np_extra <= 1 and 0 <= ns_extra <= 1
+    pre: M.bits_zero_beyond([b0, b1, b2, b3, b4, b5, b6, b7, b8, b9, b10, b11, b12, b13, b14, b15], P * S)
+    pre: M.bits_fixed([b0, b1, b2, b3, b4, b5, b6, b7, b8, b9, b10, b11, b12, b13, b14, b15], FIX)
+    pre: M.bits_zero_beyond([t0, t1, t2, t3, t4, t5, t6, t7, t8], B.get("TP", 2) * S)
     post: _ == True
     """
-    # happiness_upload._calculate_mappings(peers, shares, servermap): the non-None part of the result is a
-    # maximum matching of the servermap restricted to peers x shares.
-    bits = [b0, b1, b2, b3, b4, b5, b6, b7, b8, b9, b10, b11, b12, b13, b14, b15]
-    rel = M.rel_from_bits(bits, P, S)
-    pperm = M.pick(PPERMS, porder)
-    sperm = M.pick(SPERMS, sorder)
-    label = [100 + pperm[p] for p in range(P)]
-    # peers/shares: those that occur, plus optionally one peer without shares / one share nobody holds
-    peers = [label[p] for p in range(P)]
-    if np_extra == 1:
-        peers.append(100 + P)
-    shares = [s for s in sperm]
-    if ns_extra == 1:
+    # pre-existing shares (relation bits b) merged with upload trackers (bits t: tracker q has a bucket for share s)
+    rel = M.rel_from_bits([b0, b1, b2, b3, b4, b5, b6, b7, b8, b9, b10, b11, b12, b13, b14, b15], P, S)
+    trel = M.rel_from_bits([t0, t1, t2, t3, t4, t5, t6, t7, t8], int(B.get("TP", 2)), S)
+    return M.run_concrete(_merge_check, rel, trel)
+
+
+def _calc_check(rel, pperm, extra):
+    rel = [set(r) for r in rel]
+    # peers/shares: all P peers in insertion order pperm (ids collide => set order follows insertion), all S shares;
+    # with `extra` also one peer without shares and one share nobody holds
+    peers_arg = set()
+    for p in pperm:
+        peers_arg.add(LABEL[p])
+    shares = list(range(S))
+    if extra:
+        peers_arg.add(LABEL[P])
         shares.append(S)
     servermap = {}
-    for p in range(P):
+    for p in pperm:
         if rel[p]:
-            servermap[label[p]] = set(rel[p])
-    assume(len(servermap) > 0)   # servermap falsy => the complete-graph branch (h_calc_mappings_new)
-    peers_arg = set(peers)
+            servermap[LABEL[p]] = set(rel[p])
     shares_arg = set(shares)
     res = HP._calculate_mappings(peers_arg, shares_arg, servermap)
     if set(res.keys()) != set(shares):
@@ -177,7 +216,7 @@ def h_calc_mappings(b0: bool, b1: bool, b2: bool, b3: bool, b4: bool, b5: bool, 
         if not isinstance(v, set) or len(v) != 1:
             return "a mapped share must map to a one-element set"
         pairs.append((list(v)[0], s))
-    edges = _edges(rel, label)
+    edges = _edges(rel)
     if not M.is_matching(pairs, edges):
         return "result is not a matching of the servermap: %r" % (pairs,)
     want = M.max_matching_z3(edges)
@@ -188,12 +227,33 @@ def h_calc_mappings(b0: bool, b1: bool, b2: bool, b3: bool, b4: bool, b5: bool, 
     return True
 
 
+def h_calc_mappings(b0: bool, b1: bool, b2: bool, b3: bool, b4: bool, b5: bool, b6: bool, b7: bool,
+                    b8: bool, b9: bool, b10: bool, b11: bool, b12: bool, b13: bool, b14: bool, b15: bool,
+                    porder: int, extra: bool) -> bool:
+    """
+    pre: M.bits_zero_beyond([b0, b1, b2, b3, b4, b5, b6, b7, b8, b9, b10, b11, b12, b13, b14, b15], P * S)
+    pre: M.bits_fixed([b0, b1, b2, b3, b4, b5, b6, b7, b8, b9, b10, b11, b12, b13, b14, b15], FIX)
+    pre: 0 <= porder < len(PPERMS)
+    pre: b0 or b1 or b2 or b3 or b4 or b5 or b6 or b7 or b8 or b9 or b10 or b11 or b12 or b13 or b14 or b15
+    post: _ == True
+    """
+    # happiness_upload._calculate_mappings(peers, shares, servermap): the non-None part of the result is a
+    # maximum matching of the servermap restricted to peers x shares.  (An empty servermap is falsy and
+    # selects the complete-graph branch: h_calc_mappings_new.)
+    bits = [b0, b1, b2, b3, b4, b5, b6, b7, b8, b9, b10, b11, b12, b13, b14, b15]
+    rel = M.rel_from_bits(bits, P, S)
+    pperm = M.pick(PPERMS, porder)
+    ex = True if extra else False
+    return M.run_concrete(_calc_check, rel, pperm, ex)
+
+
 def h_calc_mappings_new(npeers: int, nshares: int, porder: int) -> bool:
     """
     pre: 0 <= npeers <= B.get("NP", 4) and 0 <= nshares <= B.get("NS", 4) and 0 <= porder <= 1
     post: _ == True
     """
-    # servermap=None: complete bipartite graph; min(|peers|,|shares|) shares are mapped to distinct peers
+    # servermap=None: complete bipartite graph; min(|peers|,|shares|) shares are mapped to distinct peers.
+    # (traced execution: the sizes stay symbolic until the loops realise them)
     peers = set()
     for i in range(B.get("NP", 4)):
         if i < npeers:
@@ -203,8 +263,8 @@ def h_calc_mappings_new(npeers: int, nshares: int, porder: int) -> bool:
         if i < nshares:
             shares.add(i)
     res = HP._calculate_mappings(peers, shares)
-    if npeers == 0 or nshares == 0:
-        # degenerate graph: the real code returns whatever it returns, but must not invent peers
+    if len(peers) == 0 or len(shares) == 0:
+        # degenerate graph: must not invent peers
         for s, v in res.items():
             if v is not None and not set(v) <= peers:
                 return "invented a peer"
